@@ -217,6 +217,11 @@ def check(run):
                 for x in mir.consts_in(fb.rvalue_term(rv)):
                     consts.add(x[1] if x[0] == "cref" else (x[3] if len(x) > 3 else ""))
         o.check(("BlockExec", "state_hash") in reads, "begin_block|parent-commitment", "the seed is the parent's computed state_hash when the parent was executed", b.span, {"reads": sorted(reads)})
+        # ... for EVERY tracked parent: nothing about the parent's record (how many transactions it has seen, ..) decides whether its
+        # commitment is used - an empty block's commitment is its seed, which is still not its block hash
+        other = sorted(n for (ow, n) in reads if ow == "BlockExec" and n != "state_hash")
+        narrowing = sorted(set(c.name.rsplit("::", 1)[-1] for fb in fam for c in fb.calls() if c.name.rsplit("::", 1)[-1] in ("filter", "take_if", "filter_map", "is_some_and", "is_none_or") and "option::Option" in c.name))
+        o.check(not other and not narrowing, "begin_block|every-tracked-parent", "the parent's commitment is used whenever the parent is tracked (no condition on its record)", b.span, {"other_fields_read": other, "narrowing_calls": narrowing})
         o.check(any(str(x).endswith("GENESIS_BLOCK_HASH") for x in consts), "begin_block|genesis-fallback", "falls back to the parent block hash, and to GENESIS_BLOCK_HASH without a parent", b.span)
     et = [prog.bodies[d] for d in ops if d.endswith("::execute_transactions")]
     for b in et:
